@@ -554,6 +554,13 @@ static void RemoveObject(const Type::Ptr& type, const ConfigObject::Ptr& obj)
 VOP(cw_restart)
 {
 	CaseBegin();
+	// Only the _api package is reloaded.  A statically configured object created by this case would keep pointing at the
+	// OLD instance of a run-time parent (its DependencyGraph edge could then never be removed): not emulated.
+	for (auto& x : l_Tracked) {
+		auto *ct = dynamic_cast<ConfigType *>(Type::GetByName(x.type).get());
+		ConfigObject::Ptr obj = ct ? ct->GetObject(x.name) : nullptr;
+		if (obj && obj->GetPackage() != "_api") { Out("cw_restart res=skipped"); return; }
+	}
 	std::map<std::pair<std::string, std::string>, std::string> before, after;
 	auto snapshot = [](std::map<std::pair<std::string, std::string>, std::string>& m) {
 		for (const Type::Ptr& type : Type::GetAllTypes()) {
